@@ -234,12 +234,26 @@ func matchParenAt(s string, i int) int {
 	return -1
 }
 
+var encMu sync.Mutex
+
 // dischargeAll solves obligations in parallel.
 func dischargeAll(obls []*Obl, dir string, timeout time.Duration, cross bool, par int) map[*Obl]SolveResult {
 	res := map[*Obl]SolveResult{}
 	var mu sync.Mutex
 	sem := make(chan struct{}, par)
 	var wg sync.WaitGroup
+	// query texts are built sequentially: building mutates the shared type registry
+	texts := make([]string, len(obls))
+	smalls := make([]string, len(obls))
+	for i, o := range obls {
+		if o.Trivial {
+			continue
+		}
+		texts[i] = o.query(true)
+		smalls[i] = o.smallModelConstraints()
+		// probing may have registered new literals: rebuild once so the prelude has them
+		texts[i] = o.query(true)
+	}
 	for i, o := range obls {
 		if o.Trivial {
 			res[o] = SolveResult{Status: "unsat", Solver: "syntactic"}
@@ -251,18 +265,23 @@ func dischargeAll(obls []*Obl, dir string, timeout time.Duration, cross bool, pa
 			sem <- struct{}{}
 			defer func() { <-sem }()
 			file := filepath.Join(dir, fmt.Sprintf("o%04d.smt2", i))
-			os.WriteFile(file, []byte(o.query(true)), 0o644)
+			os.WriteFile(file, []byte(texts[i]), 0o644)
 			r := solve(file, timeout, cross)
 			if r.Status == "sat" {
+				encMu.Lock()
 				r.Model = o.modelFor(r.Output)
+				encMu.Unlock()
 				// prefer a small counterexample for replay: same query plus size bounds
-				if small := o.smallModelConstraints(); small != "" {
+				if small := smalls[i]; small != "" {
 					f2 := strings.TrimSuffix(file, ".smt2") + "-small.smt2"
-					q := strings.Replace(o.query(true), "(check-sat)", small+"(check-sat)", 1)
+					q := strings.Replace(texts[i], "(check-sat)", small+"(check-sat)", 1)
 					os.WriteFile(f2, []byte(q), 0o644)
 					r2 := solve(f2, timeout, false)
 					if r2.Status == "sat" {
-						if m := o.modelFor(r2.Output); m != nil {
+						encMu.Lock()
+						m := o.modelFor(r2.Output)
+						encMu.Unlock()
+						if m != nil {
 							r.Model = m
 							r.Output = r2.Output
 						}
